@@ -122,6 +122,24 @@ pub fn learn_labels<G: Cv>(env: &Env<G>, seed: u64) -> Result<Labels, String> {
     Ok(l)
 }
 
+/// Every challenge the verifier squeezes for this proof, main transcript and forks, in order.
+pub fn recorded_challenges<G: Cv>(env: &Env<G>, prog: &Program, comms: &[G], parts: &Parts<G>, seed: u64) -> Vec<G::ScalarField> {
+    let Ok(proof) = parts.to_proof() else { return vec![] };
+    let (_, ev) = record_guarded(|| {
+        let t = Transcript::new(program::LABEL);
+        let (verifier, ctx) = build_verifier::<G, Transcript>(prog, &env.pc, t, seed, Dev::None, comms);
+        let r = verifier.verify(&proof, &env.pc, &env.bp).is_ok();
+        let _ = take_ctx(ctx);
+        r
+    });
+    ev.iter()
+        .filter_map(|e| match e {
+            crate::recorder::Event::Challenge { out, .. } => Some(scalar_from_challenge::<G::ScalarField>(out)),
+            _ => None,
+        })
+        .collect()
+}
+
 pub fn make_bases<G: Cv>(env: &Env<G>, progs: &[&Program], seed: u64) -> Vec<Base<G>> {
     let mut out = vec![];
     for p in progs {
@@ -149,7 +167,11 @@ pub enum DevSel {
     RefHonest,
     /// one deviation during the reference prover's run
     Run(RunDev),
+    /// two scalar fields traded against each other with a weight taken from the challenges the
+    /// verifier derived for the unmodified proof: slot i += 1, slot j += sign * c^(+-1)
+    Weighted { i: usize, j: usize, c: usize, inv: bool, neg: bool },
 }
+const SC_SLOTS: [crate::devspace::Slot; 5] = [crate::devspace::Slot::Sc(0), crate::devspace::Slot::Sc(1), crate::devspace::Slot::Sc(2), crate::devspace::Slot::A, crate::devspace::Slot::B];
 impl DevSel {
     pub fn name(&self) -> String {
         match self {
@@ -158,6 +180,7 @@ impl DevSel {
             DevSel::Two(a, b) => format!("{} ; {}", a.name(), b.name()),
             DevSel::RefHonest => "reference prover, no deviation".into(),
             DevSel::Run(d) => d.name(),
+            DevSel::Weighted { i, j, c, inv, neg } => format!("{} += 1 ; {} {}= (recorded challenge #{}){}", SC_SLOTS[*i].name(), SC_SLOTS[*j].name(), if *neg { "-" } else { "+" }, c, if *inv { "^-1" } else { "" }),
         }
     }
 }
@@ -185,6 +208,31 @@ fn curve_work<G: Cv>(progs: &[&Program], o: &Opts, start: std::time::Instant, re
                 for d2 in s1.iter().skip(i + 1) {
                     // round edits change the slot set; pair them only with field edits applied first
                     tasks.push((*bi, DevSel::Two(d1.clone(), d2.clone())));
+                }
+            }
+        }
+    }
+    // challenge-weighted trades between two scalar fields, on the smallest honest bases
+    let n_weighted = if o.tier == Tier::Quick { 2 } else { 8 };
+    let mut used = 0;
+    for bi in order.iter() {
+        let b = &bases[*bi];
+        if b.kind != "honest" || used >= n_weighted {
+            continue;
+        }
+        used += 1;
+        let nch = 6 + b.parts.l.len() + 2; // generous upper bound; indices beyond the recording are skipped
+        for i in 0..5 {
+            for j in 0..5 {
+                if i == j {
+                    continue;
+                }
+                for c in 0..nch {
+                    for inv in [false, true] {
+                        for neg in [false, true] {
+                            tasks.push((*bi, DevSel::Weighted { i, j, c, inv, neg }));
+                        }
+                    }
                 }
             }
         }
@@ -229,8 +277,24 @@ fn curve_work<G: Cv>(progs: &[&Program], o: &Opts, start: std::time::Instant, re
             }
             return out;
         }
+        if let DevSel::Weighted { i, j, c, inv, neg } = d {
+            // challenges (main transcript and forks, in squeeze order) of the unmodified proof
+            let chs = recorded_challenges::<G>(&env, &b.prog, &b.comms, &b.parts, o.seed);
+            // skip user challenges: they precede y
+            let nuser = b.prog.closures.iter().flatten().filter(|op| **op == crate::program::Op::Z).count();
+            let Some(cv) = chs.get(nuser + *c) else { return Out::Agree { accept: false, why: "n/a (no such challenge)".into() } };
+            let mut w = if *inv { match ark_ff::Field::inverse(cv) { Some(x) => x, None => return Out::Agree { accept: false, why: "n/a".into() } } } else { *cv };
+            if *neg {
+                w = -w;
+            }
+            let mut p2 = b.parts.clone();
+            crate::devspace::set_sc(&mut p2, SC_SLOTS[*i], crate::devspace::get_sc(&b.parts, SC_SLOTS[*i]) + G::ScalarField::one());
+            let cur = crate::devspace::get_sc(&p2, SC_SLOTS[*j]);
+            crate::devspace::set_sc(&mut p2, SC_SLOTS[*j], cur + w);
+            return judge::<G>(&env, &b.prog, &b.comms, &p2, o.seed);
+        }
         let parts = match d {
-            DevSel::RefHonest | DevSel::Run(_) => unreachable!(),
+            DevSel::RefHonest | DevSel::Run(_) | DevSel::Weighted { .. } => unreachable!(),
             DevSel::None => b.parts.clone(),
             DevSel::One(d) => apply::<G>(&b.parts, d, &env.pc, o.seed),
             DevSel::Two(d1, d2) => {
@@ -267,6 +331,7 @@ pub fn main(o: &Opts) -> i32 {
     rep.bounds = json!({"base_programs": progs.len(), "space": if o.tier == Tier::Quick { "every third program of P(1,1) + S(2) (+ bad-witness variants)" } else { "P(2,1) + S(4) (+ bad-witness variants)" },
         "depth1": "every element of the algebraic deviation alphabet keeping |L|=|R| (identity, negation, +B, +B_blinding, (+T8, T8), scalar 0/neg/+delta, round edits); same-type copies and swaps on the smallest bases",
         "depth2": "all unordered pairs of depth-1 deviations on the smallest bases",
+        "challenge_weighted": "on the smallest honest bases: every ordered pair of scalar fields (t_x, t_x_blinding, e_blinding, a, b): first += 1, second += +-c^(+-1) for every challenge c the verifier derived for the unmodified proof (forks included)",
         "run_deviations": "for every honest base: the reference prover's own honest proof, and every single replacement of one message at the moment it is produced (each point slot: +B, +B_blinding, +G[0], negated, identity; each scalar slot: +1, 0), the rest of the run computed honestly"});
     rep.curves = CURVES.iter().map(|s| s.to_string()).collect();
     rep.rule = "for every base proof (honest and honest-from-bad-witness) and every deviation, the real verdict is compared with an independent verifier that evaluates (a) non-identity, (b) the committed evaluation relation and (c) the inner-product relation with explicit folding, under the challenges recorded from the real run; non-trivial = cases where the reference evaluated (b) and (c)".into();
@@ -294,7 +359,7 @@ pub fn main(o: &Opts) -> i32 {
                         rep.nontrivial += 1;
                     }
                     let depth = if dname == "none" || dname.starts_with("reference prover") { 0 } else if dname.contains(" ; ") { 2 } else { 1 };
-                    let kind = if dname.starts_with("during the run") { "run-deviation" } else if dname.starts_with("reference prover") { "reference-prover" } else { kind };
+                    let kind = if dname.contains("recorded challenge") { "challenge-weighted" } else if dname.starts_with("during the run") { "run-deviation" } else if dname.starts_with("reference prover") { "reference-prover" } else { kind };
                     rep.count(&format!("{}/depth{}/{}", kind, depth, if accept { "accept".to_string() } else if evaluated { format!("reject {}", why) } else { format!("reject early: {}", why.split(' ').next().unwrap_or("")) }), 1);
                 }
                 Some(Out::Bad { expected, observed }) => {
